@@ -129,22 +129,22 @@ Definition user_payload (c : cell) (off : bool) (s e : Z) (rows : list row) : re
 Definition src_chunk (i r : nat) : chunk :=
   mkchunk (SPAN * Z.of_nat i) (SPAN * (Z.of_nat i + 1)) (src_rows i r) L_SRC L_SRC (Some RUN_ID) TGT.
 
-Definition lift (p : pdecl) (range : option (Z * Z)) (rp : res payload) : msgs :=
-  match rp with Err e => [Err e] | Ok pl => do_compute_out p pl range end.
+Definition lift (fx : bool) (p : pdecl) (range : option (Z * Z)) (rp : res payload) : msgs :=
+  match rp with Err e => [Err e] | Ok pl => do_compute_out_gen fx p pl range end.
 
 (* plugin kinds that see one source chunk per invocation *)
-Definition plain_msgs (c : cell) : msgs :=
+Definition plain_msgs (fx : bool) (c : cell) : msgs :=
   let p := t_decl (c_kind c) in
   flat_map (fun i =>
       let s := SPAN * Z.of_nat i in let e := SPAN * (Z.of_nat i + 1) in
       let range := match c_kind c with KSource => None | _ => Some (s, e) end in
-      lift p range (user_payload c (i =? c_pos c)%nat s e (src_rows i (c_r c))))
+      lift fx p range (user_payload c (i =? c_pos c)%nat s e (src_rows i (c_r c))))
     (seq 0 (c_n c)).
 
 (* OverlapWindowPlugin: iter drives do_compute once per input chunk, then yields the cached result *)
 Definition OW_WINDOW : Z := 10.
 
-Fixpoint ow_msgs (c : cell) (k : nat) (st : ow_state) (inputs : list chunk) : msgs :=
+Fixpoint ow_msgs (fx : bool) (c : cell) (k : nat) (st : ow_state) (inputs : list chunk) : msgs :=
   match inputs with
   | [] => match ow_cres st with Some x => [Ok [x]] | None => [] end
   | inp :: rest =>
@@ -156,12 +156,12 @@ Fixpoint ow_msgs (c : cell) (k : nat) (st : ow_state) (inputs : list chunk) : ms
           | Err e => [Err e]
           | Ok (PGen _) => [Err E_NOT_ARRAY]
           | Ok (PVal v) =>
-              match fix_output p v (Some (cstart kw, cend kw)) with
+              match fix_output_gen fx p v (Some (cstart kw, cend kw)) with
               | Err e => [Err e]
               | Ok [result] =>
                   match ow_after OW_WINDOW st kw result with
                   | Err e => [Err e]
-                  | Ok (out, st') => Ok [out] :: ow_msgs c (S k) st' rest
+                  | Ok (out, st') => Ok [out] :: ow_msgs fx c (S k) st' rest
                   end
               | Ok _ => [Err E_KEY]
               end
@@ -169,27 +169,27 @@ Fixpoint ow_msgs (c : cell) (k : nat) (st : ow_state) (inputs : list chunk) : ms
       end
   end.
 
-Definition cell_msgs (c : cell) : msgs :=
+Definition cell_msgs (fx : bool) (c : cell) : msgs :=
   match c_kind c with
-  | KOverlap => ow_msgs c 0 ow_init (map (fun i => src_chunk i (c_r c)) (seq 0 (c_n c)))
-  | _ => plain_msgs c
+  | KOverlap => ow_msgs fx c 0 ow_init (map (fun i => src_chunk i (c_r c)) (seq 0 (c_n c)))
+  | _ => plain_msgs fx c
   end.
 
 Definition cell_target (c : cell) : Z := match c_kind c with KSource => L_SRC | _ => L_T end.
 
-Definition run_cell (c : cell) : outcome :=
-  run_pipeline (t_decl (c_kind c)) (cell_target c) (c_rechunk c) (cell_msgs c).
+Definition run_cell_gen (fx : bool) (c : cell) : outcome :=
+  run_pipeline (t_decl (c_kind c)) (cell_target c) (c_rechunk c) (cell_msgs fx c).
 
 (* what the caller sees: 0 = normal return, otherwise the error code *)
-Definition cell_result_code (c : cell) : Z :=
-  let o := run_cell c in
+Definition cell_result_code_gen (fx : bool) (c : cell) : Z :=
+  let o := run_cell_gen fx c in
   match (if c_get_array c then match get_array_result o with Ok _ => Ok tt | Err e => Err e end
          else match o_result o with Ok _ => Ok tt | Err e => Err e end) with
   | Ok _ => 0 | Err e => e
   end.
 
-Definition cell_visible (c : cell) (d : Z) : bool :=
-  existsb (fun sv => (sv_type sv =? d) && visible sv) (o_savers (run_cell c)).
+Definition cell_visible_gen (fx : bool) (c : cell) (d : Z) : bool :=
+  existsb (fun sv => (sv_type sv =? d) && visible sv) (o_savers (run_cell_gen fx c)).
 
 (* the data type the violation is in *)
 Definition offending_type (c : cell) : Z :=
@@ -202,5 +202,11 @@ Definition offending_type (c : cell) : Z :=
 
 (* The property for one cell: the caller gets an exception and the offending data type is not
    served from storage afterwards. *)
-Definition cell_rejected (c : cell) : bool :=
-  negb (cell_result_code c =? 0) && negb (cell_visible c (offending_type c)).
+Definition cell_rejected_gen (fx : bool) (c : cell) : bool :=
+  negb (cell_result_code_gen fx c =? 0) && negb (cell_visible_gen fx c (offending_type c)).
+
+(* the model of the code /repo currently carries *)
+Definition run_cell := run_cell_gen REPAIRED_F1F2.
+Definition cell_result_code := cell_result_code_gen REPAIRED_F1F2.
+Definition cell_visible := cell_visible_gen REPAIRED_F1F2.
+Definition cell_rejected := cell_rejected_gen REPAIRED_F1F2.
